@@ -38,17 +38,21 @@ CHECKS.update({
          "compositional (per function) rather than end-to-end; libm as uninterpreted functions."),
 })
 CHECKS.update({
- "C01": ("M", TECH_M, "z3 decides over the symbolically executed MIR: JulianDay::new = independent day count + 1721424.5 - gmt/24 for every date 1583..9999; get_ra_interp_deltas = differences of the unwrapped RA triple in every wrap case (exact LRA); the Dhuhr part of get_shur_dhuhr_magh puts the hour angle of the interpolated Sun within 10 s of zero (solver-checked proof script); Dhuhr is Ok through get_hours and the policies.",
-         "PARTIAL: the accuracy of Astro::new (VSOP87/nutation/sidereal polynomial) and parallax is outside the claim - the oracle interpolates the library's own ephemeris triple; a change inside the ephemeris tables is invisible to this check."),
- "C02": ("M", TECH_M, "z3/nlsat decides the rise/set identity of get_shur_magh_m_0_adj at h0 = -0.833 (+-0.05) with adj in [0,0.5] for |lat| <= 60, get_hour_angle = sid + 360.985647 x + lon - RA(x) (mod 360) for every day fraction x, the one-step correction of get_shur_magh (0.05 deg), the Shurooq-at-m0-adj / Maghrib-at-m0+adj wiring of get_shur_dhuhr_magh with the caller's weather, and that weather reaches only this kernel with absent weather = default.",
+ "C01": ("M", TECH_M, "z3 decides over the symbolically executed MIR: JulianDay::new = independent day count + 1721424.5 - gmt/24 for every date 1583..9999; get_ra_interp_deltas = differences of the unwrapped RA triple in every wrap case (exact LRA); the Dhuhr part of get_shur_dhuhr_magh puts the hour angle of the interpolated Sun within 10 s of zero (solver-checked proof script); Dhuhr is Ok through get_hours and the policies; Astro::new is total and its sidereal time equals the mean sidereal time formula within 0.02 deg (mod 360) for every real Julian Day of 1600..2399 (interval abstraction of the nutation series, then linear arithmetic).",
+         "PARTIAL: the VALUES of right ascension/declination/distance computed by Astro::new (VSOP87 evaluation) and the parallax correction are outside the solver claim - the transit oracle interpolates the library's own ephemeris triple; they are covered by the native assumption sweep against Meeus ch. 25 only."),
+ "C02": ("M", TECH_M, "z3/nlsat decides the rise/set identity of get_shur_magh_m_0_adj at h0 = -0.833 (+-0.05) with adj in [0,0.5] for |lat| <= 60, get_hour_angle = sid + 360.985647 x + lon - RA(x) (mod 360) for every day fraction x, Astro::new's totality / sidereal-time formula / distance, declination and right-ascension ranges, the one-step correction of get_shur_magh (0.05 deg), the Shurooq-at-m0-adj / Maghrib-at-m0+adj wiring of get_shur_dhuhr_magh with the caller's weather, and that weather reaches only this kernel with absent weather = default.",
          "PARTIAL: ephemeris accuracy (Astro::new) is outside the solver claim and covered only by the native assumption sweep against Meeus ch. 25."),
- "C13": ("M", TECH_M, "z3 decides the code-level causes of day-to-day jumps: Julian Day = day number + const - gmt/24 (so consecutive dates are exactly 1 apart over every month/year/leap boundary), RA interpolation on the unwrapped triple in every wrap case, Dhuhr within 10 s of the interpolated transit, the unrounded clock conversion is truncation for all 7 keys.",
+ "C13": ("M", TECH_M, "z3 decides the code-level causes of day-to-day jumps: Julian Day = day number + const - gmt/24 (so consecutive dates are exactly 1 apart over every month/year/leap boundary), RA interpolation on the unwrapped triple in every wrap case, Dhuhr within 10 s of the interpolated transit, the unrounded clock conversion is truncation for all 7 keys, Astro::new total with sidereal time = mean sidereal formula within 0.02 deg for every real Julian Day of 1600..2399.",
          "PARTIAL: the numeric second-difference bounds depend on the smoothness of the real ephemeris: not solver-decided, checked by a native smoothness sweep over month/year/century ends, leap days, equinoxes and the J2000.0 epoch (all six times) and the ephemeris assumption sweep."),
- "C20": ("M", TECH_M, "z3 decides that the GMT offset flows only into JulianDay::new and shifts the Julian Day by exactly -d/24, that longitude enters the transit only through sid + lon (congruence step) and that Dhuhr tracks the interpolated transit within 10 s.",
+ "C20": ("M", TECH_M, "z3 decides that the GMT offset flows only into JulianDay::new and shifts the Julian Day by exactly -d/24, that longitude enters the transit only through sid + lon (congruence step) that Dhuhr tracks the interpolated transit within 10 s, and that Astro::new's sidereal time is the mean sidereal formula of the Julian Day within 0.02 deg.",
          "PARTIAL: the end-to-end +-10 s covariance of all seven times against the real ephemeris is outside the claim."),
 })
+CHECKS.update({
+ "C15": ("M", TECH_M + " with a message-level model of std::thread::scope / mpsc (every arrival order of the workers' messages is a symbolic path)",
+         "z3 decides, per path of the symbolically executed MIR of prayer_times_dt_rng_block and its closures with n = 1..5 (thorough 1..7) detected workers - every arrival order of the workers' messages, both sides of the parallelism threshold, symbolic range of up to 400 days incl. reversed and fewer days than workers - that the collector terminates (every Sender is dropped: no deadlock), nothing panics, and the collected map is the union of prayer_times_dt_rng over exactly the blocks of partition(n), each once; with C14's exact-cover and per-day obligations this is the sequential result.",
+         "BOUNDED and MODEL-LEVEL: worker counts above the bound, and the internals of std's scope/mpsc (lost wake-ups inside std) are outside - the model is their documented message-level behaviour (trusted); real schedules on this host are exercised only by a native block-vs-sequential differential with a watchdog (no schedule perturbation hooks)."),
+})
 NA = {
- "C15": "quantifies over thread interleavings of std::thread::scope + mpsc; Kani does not model concurrency and no installed symbolic engine reaches Rust std threads (DESIGN.md §4 C15)",
  "C19": "process-level property (argv parsing by clap, files, serde_json text, exit status): outside the reach of symbolic execution of the crate (DESIGN.md §4 C19)",
 }
 extra = json.load(open(os.path.join(HERE, "tools", "manifest_extra.json"))) if os.path.exists(os.path.join(HERE, "tools", "manifest_extra.json")) else {}
